@@ -39,7 +39,9 @@ func cmdVerify(args []string) {
 	all := fs.Bool("all", false, "print discharged obligations too")
 	nocontract := fs.Bool("sweep", false, "also translate functions without contract (safety obligations only)")
 	explain := fs.Bool("explain", false, "split failing obligations into conjuncts and report which ones fail")
+	only := fs.String("only", "", "discharge only obligations whose name contains this string")
 	_ = fs.Parse(args)
+	onlyObl = *only
 	pats := fs.Args()
 	if len(pats) == 0 {
 		pats = []string{"./..."}
@@ -141,6 +143,7 @@ func cmdVerify(args []string) {
 }
 
 var globalSem = make(chan struct{}, 16)
+var onlyObl string
 
 // verifyFn: translate + discharge, with the Houdini loop over automatically proposed counter invariants.
 func verifyFn(P *Program, fn *ssa.Function, ct *Contract, opt solveOpts) *FnResult {
